@@ -25,9 +25,12 @@
     trip in every notation.
   * `C15_full_literal_false` — `C15_full` read literally is FALSE in the model (no bound on the
     number of coefficients: `X^(2^63)` prints an exponent `strconv.ParseInt` rejects); the bounded
-    statement is assembled as `C15_full_bounded_partial` in `Props/C15FullDefine.lean`.
-  Still only stated (`C15Full_remaining` below): the bivariate notational variations, bivariate
-  additivity in quotient rings without `hsum`.
+    statement is assembled as `C15_full_bounded` in `Props/C15FullDefine.lean`.
+  * `bpoly_notation_generic`, `prime_/bin_/ext_bpoly_notation` — `BNotations`: bivariate round
+    trip in every notation (incl. `y` before `x`).
+  * `hsum_of_side`, `prime_/bin_/ext_bpoly_additive_bounded` — bivariate additivity in quotient
+    rings under `BAddSide` (`BPoly.reduceIn_sum`).
+  Nothing remains only stated; see the last section for the bounds the theorems carry.
 -/
 import Algobra.Props.C15
 import Algobra.Props.C03
@@ -38,6 +41,8 @@ import Algobra.Proofs.BPolyPerm
 import Algobra.Proofs.ParseRTAdd
 import Algobra.Proofs.ParseRTBAdd
 import Algobra.Proofs.ParseRTNPoly
+import Algobra.Proofs.ParseRTBNPoly
+import Algobra.Proofs.BPolyReduced
 import Algobra.Proofs.ExtField
 
 namespace Algobra.C15
@@ -1293,7 +1298,400 @@ theorem C15_full_literal_false : ¬ C15_full := by
   intro h
   exact upolyRoundTrip_literal_false (h.1 7 (by decide +kernel)).2.1
 
-/-! ### 11. what remains of `C15_full` -/
+/-! ### 11. the notational freedoms (bivariate)
+
+  `ParseRT.bodyB_termN`: the bivariate tokeniser reads a term written with optional `*`, optional
+  `^`, any blanks around `+`, any letter case and either order of the variables; when `y` is
+  written first, `ensureVariableOrder` swaps names and exponents back (`ParseRT.b_go_termYX`). -/
+
+theorem varStrN_toList (v : String) (caret : Bool) (e : Nat) :
+    ((if e ≥ 1 then v else "") ++
+      (if e > 1 then (if caret then "^" else "") ++ toString e else "")).toList =
+      varPartN v caret e := by
+  unfold varPartN
+  by_cases h0 : e = 0
+  · simp [h0]
+  · by_cases h1 : e = 1
+    · simp [h1]
+    · have h2 : e ≥ 1 := by omega
+      have h3 : e > 1 := by omega
+      cases caret <;> simp [h0, h1, h2, h3]
+
+theorem starStr_toList (star : Bool) (cs : String) (d1 d2 : Nat) :
+    ((if (star && cs != "" && (d1 != 0 || d2 != 0)) = true then "*" else "") : String).toList =
+      if star = true ∧ cs.toList ≠ [] ∧ (d1 ≠ 0 ∨ d2 ≠ 0) then ['*'] else [] := by
+  have hcs : cs.toList = [] ↔ cs = "" := by
+    constructor
+    · intro h; apply String.toList_inj.1; rw [h]; rfl
+    · rintro rfl; rfl
+  by_cases h1 : star = true <;> by_cases h2 : cs = "" <;> by_cases h3 : d1 = 0 <;>
+    by_cases h4 : d2 = 0 <;> simp [h1, h2, h3, h4, hcs]
+
+theorem bnamesN_of {α : Type} {F : FOps α} (N : Notation) {x y : String} (hx : AdmissibleName x)
+    (hy : AdmissibleName y) (hxy : Unconfusable x y)
+    (hun : ∀ w, F.ownVar = some w → Unconfusable x w ∧ Unconfusable y w) :
+    BNamesN F x y (varN N x) (varN N y) := by
+  obtain ⟨hlx, x0', xt', hx'1, hx'2, _⟩ := varN_facts N hx
+  obtain ⟨hly, y0', yt', hy'1, hy'2, _⟩ := varN_facts N hy
+  have hxy' := hxy
+  unfold Unconfusable UPoly.strLower at hxy'
+  simp only [String.toList_ofList] at hxy'
+  obtain ⟨x0, xt, hx1, hx2, _⟩ := hx
+  obtain ⟨y0, yt, hy1, hy2, _⟩ := hy
+  refine ⟨⟨x0, xt, hx1, hx2⟩, ⟨y0, yt, hy1, hy2⟩, ⟨⟨x0', xt', hx'1, hx'2⟩, ?_, ?_⟩,
+    ⟨⟨y0', yt', hy'1, hy'2⟩, ?_, ?_⟩, ?_, ?_, ?_⟩
+  · intro Z
+    unfold scanVar
+    rw [stripCi_append hlx]
+  · intro w Z hw
+    exact strip_none_of_unconfusable
+      (unconfusable_varN N ⟨x0, xt, hx1, hx2, ‹_›⟩ (hun w hw).1) Z
+  · intro Z
+    unfold scanVar
+    have : stripCi x.toList ((varN N y).toList ++ Z) = none :=
+      stripCi_none_of_unconf (by rw [hly]; exact hxy') Z
+    rw [this, stripCi_append hly]
+  · intro w Z hw
+    exact strip_none_of_unconfusable
+      (unconfusable_varN N ⟨y0, yt, hy1, hy2, ‹_›⟩ (hun w hw).2) Z
+  · unfold UPoly.strLower; rw [hlx]
+  · unfold UPoly.strLower; rw [hly]
+  · intro e
+    apply hxy'.1
+    have := congrArg String.toList e
+    unfold UPoly.strLower at this
+    simp only [String.toList_ofList] at this
+    rw [this]
+
+/-- the printed form of a bivariate polynomial in a notation, as a joined list of terms -/
+theorem bToStrN_toList {α : Type} (N : Notation) {k l : Nat}
+    (hN : N.sep = String.ofList (List.replicate k ' ' ++ '+' :: List.replicate l ' '))
+    (R : BPoly.Ring α) (hz1 : R.F.toStr R.F.zero = "0") (hz2 : ¬ R.F.nTerms R.F.zero > 1)
+    (f : BPoly α) :
+    (bToStrN N R f).toList = joinS (sepN k l)
+      ((btermsOf R f).map
+        (btermN R.F (varN N R.varNames.1) (varN N R.varNames.2) N.caret N.star N.yFirst)) := by
+  unfold bToStrN btermsOf
+  by_cases hz : f.isEmpty = true
+  · simp only [hz, if_true, List.map_cons, List.map_nil, joinS]
+    cases N.yFirst <;>
+      simp [btermN, btermCharsN, bcoefPart, coefText, bstarPart, varPartN, hz1, hz2]
+  · simp only [hz, Bool.false_eq_true, if_false]
+    rw [intercalate_toListS, hN, String.toList_ofList, List.map_map, List.map_map]
+    show joinS (sepN k l) _ = _
+    congr 1
+    apply List.map_congr_left
+    intro d _
+    simp only [Function.comp]
+    show (_ ++ _ ++ _ : String).toList = _
+    rw [String.toList_append, String.toList_append, List.append_assoc]
+    have hcs : ((if (!R.F.isOne (BPoly.coef R.F f d) || (d.1 == 0 && d.2 == 0)) = true then
+          (if R.F.nTerms (BPoly.coef R.F f d) > 1 then "(" ++ R.F.toStr (BPoly.coef R.F f d) ++ ")"
+            else R.F.toStr (BPoly.coef R.F f d)) else "") : String).toList =
+        bcoefPart R.F (BPoly.coef R.F f d) d.1 d.2 := by
+      unfold bcoefPart coefText; split <;> simp
+    have hcomm : bcoefPart R.F (BPoly.coef R.F f d) d.2 d.1 =
+        bcoefPart R.F (BPoly.coef R.F f d) d.1 d.2 := by
+      unfold bcoefPart; rw [Bool.and_comm]
+    have hx := varStrN_toList (varN N R.varNames.1) N.caret d.1
+    have hy := varStrN_toList (varN N R.varNames.2) N.caret d.2
+    unfold varN at hx hy
+    rw [hcs]
+    cases hyf : N.yFirst with
+    | false =>
+      simp only [btermN, Bool.false_eq_true, if_false, btermCharsN]
+      congr 1
+      congr 1
+      · unfold bstarPart
+        rw [← hcs]
+        exact starStr_toList N.star _ d.1 d.2
+      · rw [String.toList_append, hx, hy]; rfl
+    | true =>
+      simp only [btermN, if_true, btermCharsN, hcomm]
+      congr 1
+      congr 1
+      · unfold bstarPart
+        rw [hcomm, ← hcs]
+        have hor : (d.2 ≠ 0 ∨ d.1 ≠ 0) ↔ (d.1 ≠ 0 ∨ d.2 ≠ 0) := or_comm
+        simp only [hor]
+        exact starStr_toList N.star _ d.1 d.2
+      · rw [String.toList_append, hx, hy]; rfl
+
+/-- `BPolyRoundTrip` clause 1 for EVERY notation, over any lawful coefficient record with a
+    `CoefRT` coefficient syntax, every order, every ideal -/
+theorem bpoly_notation_generic {α K : Type} [Field K] {F : FOps α} (L : Lawful F K)
+    (H : CoefRT F L.valid) (hz1 : F.toStr F.zero = "0") (hz2 : ¬ F.nTerms F.zero > 1)
+    (hown : ∀ w, F.ownVar = some w → AdmissibleName w)
+    {x y : String} (hx : AdmissibleName x) (hy : AdmissibleName y) (hxy : Unconfusable x y)
+    (hun : ∀ w, F.ownVar = some w → Unconfusable x w ∧ Unconfusable y w)
+    (ord : Order) (ideal : Option (List (BPoly α))) {f : BPoly α} (hf : BPoly.WF L f)
+    (hb : BPoly.Bounded f)
+    (hred : BPoly.reduceIn { F := F, ord := ord, varNames := (x, y), ideal := ideal } f = some f)
+    (N : Notation) (hN : N.ok) :
+    ∃ g, BPoly.parse { F := F, ord := ord, varNames := (x, y), ideal := ideal }
+        (bToStrN N { F := F, ord := ord, varNames := (x, y), ideal := ideal } f) = .ok (some g) ∧
+      BPoly.equal F f g = true := by
+  obtain ⟨k, l, hsep⟩ := hN
+  have hdir : BPoly.directOK { F := F, ord := ord, varNames := (x, y), ideal := ideal } = true := by
+    unfold BPoly.directOK
+    simp only [(admissible_iff_simple x).1 hx, (admissible_iff_simple y).1 hy, Bool.and_self,
+      Bool.true_and]
+    cases hw : F.ownVar with
+    | none => rfl
+    | some w =>
+      simp only [(admissible_iff_simple w).1 (hown w hw), unconf_of_unconfusable (hun w hw).1,
+        unconf_of_unconfusable (hun w hw).2, Bool.and_self]
+  have hparse := bpoly_parse_N { F := F, ord := ord, varNames := (x, y), ideal := ideal } L H
+    (bnamesN_of N hx hy hxy hun) hdir N.caret N.star N.yFirst k l hf hb
+    (bToStrN_toList N hsep { F := F, ord := ord, varNames := (x, y), ideal := ideal } hz1 hz2 f)
+  have hperm := sortedTerms_perm (F := F) ord hf.1
+  rw [hparse]
+  cases hid : ideal with
+  | none =>
+    refine ⟨BPoly.sortedTerms F ord f, by simp [BPoly.reduceIn], ?_⟩
+    exact (BPoly.equal_iff L hf (BPoly.WF_perm L hperm.symm hf)).2 (BPoly.toMv_perm L hperm.symm)
+  | some gs =>
+    subst hid
+    refine ⟨f, ?_, (BPoly.equal_iff L hf hf).2 rfl⟩
+    rw [← BPoly.reduceIn_perm _ (gs := gs) rfl hperm.symm hf.1, hred]
+
+/-- `BPolyRoundTrip` clause 1, every notation, over a prime field -/
+theorem prime_bpoly_notation {p : Nat} (hp : p.Prime) (h32 : p - 1 < 2 ^ 32) {x y : String}
+    (hx : AdmissibleName x) (hy : AdmissibleName y) (hxy : Unconfusable x y) (ord : Order)
+    (ideal : Option (List (BPoly Nat))) {f : BPoly Nat}
+    (hf : BValid (primeSpec p) { F := primeOps p, ord := ord, varNames := (x, y), ideal := ideal } f)
+    (N : Notation) (hN : N.ok) :
+    ∃ g, BPoly.parse { F := primeOps p, ord := ord, varNames := (x, y), ideal := ideal }
+        (bToStrN N { F := primeOps p, ord := ord, varNames := (x, y), ideal := ideal } f) =
+          .ok (some g) ∧
+      BPoly.equal (primeOps p) f g = true := by
+  have := Fact.mk hp
+  obtain ⟨hnd, hval, hred⟩ := hf
+  have hwf : BPoly.WF (primeLawfulFact p h32) f :=
+    ⟨hnd, fun t ht => ⟨(hval t ht).1,
+      ((primeLawfulFact p h32).isZero_false_iff _ (hval t ht).1).1 (hval t ht).2.1⟩⟩
+  exact bpoly_notation_generic (primeLawfulFact p h32) (prime_coefRT hp.two_le (by omega))
+    (by show toString (0 : Nat) = "0"; decide) (by show ¬ (1 > 1); omega)
+    (fun w hw => by cases hw) hx hy hxy (fun w hw => by cases hw) ord ideal hwf
+    (fun t ht => (hval t ht).2.2) hred N hN
+
+/-- … over a binary field -/
+theorem bin_bpoly_notation {K : Type} [Field K] {n m : Nat} {w : String}
+    (L : Lawful (binOps n m w) K) (hL : ∀ a, L.valid a ↔ a < 2 ^ n) (hw : AdmissibleName w)
+    (hn : n < 64) {x y : String} (hx : AdmissibleName x) (hy : AdmissibleName y)
+    (hxy : Unconfusable x y) (hxw : Unconfusable x w) (hyw : Unconfusable y w) (ord : Order)
+    (ideal : Option (List (BPoly Nat))) {f : BPoly Nat}
+    (hf : BValid (binSpec n m w) { F := binOps n m w, ord := ord, varNames := (x, y), ideal := ideal } f)
+    (N : Notation) (hN : N.ok) :
+    ∃ g, BPoly.parse { F := binOps n m w, ord := ord, varNames := (x, y), ideal := ideal }
+        (bToStrN N { F := binOps n m w, ord := ord, varNames := (x, y), ideal := ideal } f) =
+          .ok (some g) ∧
+      BPoly.equal (binOps n m w) f g = true := by
+  obtain ⟨hnd, hval, hred⟩ := hf
+  have hwf : BPoly.WF L f :=
+    ⟨hnd, fun t ht => ⟨(hL _).2 (hval t ht).1,
+      (L.isZero_false_iff _ ((hL _).2 (hval t ht).1)).1 (hval t ht).2.1⟩⟩
+  have hown : ∀ w', (binOps n m w).ownVar = some w' → w' = w := by
+    intro w' h; injection h with e; exact e.symm
+  exact bpoly_notation_generic L ((bin_coefRT hw m hn).mono fun a ha => (hL a).1 ha) rfl
+    (by show ¬ popCount 0 > 1; rw [ParseRT.popCount_zero]; omega)
+    (fun w' h => by rw [hown w' h]; exact hw) hx hy hxy
+    (fun w' h => by rw [hown w' h]; exact ⟨hxw, hyw⟩) ord ideal hwf
+    (fun t ht => (hval t ht).2.2) hred N hN
+
+section ExtBNot
+variable {p : Nat} [Fact p.Prime] {h32 : p - 1 < 2 ^ 32} {n : Nat} {g : List Nat}
+
+/-- … over an extension field -/
+theorem ext_bpoly_notation {K : Type} [Field K] (M : ExtField.Modulus h32 n g) (hn : n ≤ 2 ^ 63)
+    (L : Lawful (extOps p n g) K) (hL : ∀ a, L.valid a ↔ ExtField.Valid h32 n a)
+    {x y : String} (hx : AdmissibleName x) (hy : AdmissibleName y) (hxy : Unconfusable x y)
+    (hxw : Unconfusable x "a") (hyw : Unconfusable y "a") (ord : Order)
+    (ideal : Option (List (BPoly (UPoly Nat)))) {f : BPoly (UPoly Nat)}
+    (hf : BValid (extSpec p n g) { F := extOps p n g, ord := ord, varNames := (x, y), ideal := ideal } f)
+    (N : Notation) (hN : N.ok) :
+    ∃ g', BPoly.parse { F := extOps p n g, ord := ord, varNames := (x, y), ideal := ideal }
+        (bToStrN N { F := extOps p n g, ord := ord, varNames := (x, y), ideal := ideal } f) =
+          .ok (some g') ∧
+      BPoly.equal (extOps p n g) f g' = true := by
+  obtain ⟨hnd, hval, hred⟩ := hf
+  have hv : ∀ t ∈ f, L.valid t.2 := fun t ht =>
+    (hL _).2 (by have := (hval t ht).1; exact ⟨⟨this.2.2, this.1⟩, this.2.1⟩)
+  have hwf : BPoly.WF L f :=
+    ⟨hnd, fun t ht => ⟨hv t ht, (L.isZero_false_iff _ (hv t ht)).1 (hval t ht).2.1⟩⟩
+  have hown : ∀ w', (extOps p n g).ownVar = some w' → w' = "a" := by
+    intro w' h; injection h with e; exact e.symm
+  exact bpoly_notation_generic L ((ext_coefRT M hn).mono fun a ha => (hL a).1 ha)
+    (by show UPoly.toStr (primeOps p) "a" [0] = "0"; rfl)
+    (by show ¬ UPoly.nTerms (primeOps p) [0] > 1; simp [UPoly.nTerms, UPoly.isZero, primeOps])
+    (fun w' h => by rw [hown w' h]; exact ⟨'a', [], by decide, by decide, by decide⟩) hx hy hxy
+    (fun w' h => by rw [hown w' h]; exact ⟨hxw, hyw⟩) ord ideal hwf
+    (fun t ht => (hval t ht).2.2) hred N hN
+
+end ExtBNot
+
+-- non-vacuity: y first, `*`, no `^`, lower case, no blanks: 3*yx2+x+5 for 3X^2Y + X + 5 in F_7[X,Y]
+example : ∃ g, BPoly.parse { F := primeOps 7, ord := ⟨.lex, true⟩, varNames := ("X", "Y"), ideal := none }
+      "3*yx2+x+5" = .ok (some g) ∧
+    BPoly.equal (primeOps 7) [((2, 1), 3), ((0, 0), 5), ((1, 0), 1)] g = true := by
+  have h := prime_bpoly_notation (p := 7) (by norm_num) (by norm_num) (x := "X") (y := "Y")
+    ⟨'X', [], by decide, by decide, by decide⟩ ⟨'Y', [], by decide, by decide, by decide⟩
+    (by unfold Unconfusable; decide) ⟨.lex, true⟩ none
+    (f := [((2, 1), 3), ((0, 0), 5), ((1, 0), 1)])
+    ⟨by decide, by
+      intro t ht
+      have : t = ((2, 1), 3) ∨ t = ((0, 0), 5) ∨ t = ((1, 0), 1) := by simpa using ht
+      rcases this with rfl | rfl | rfl <;>
+        exact ⟨by show (_ : Nat) < 7; decide, by decide, by decide, by decide⟩, rfl⟩
+    { caret := false, star := true, sep := "+", swapCase := true, yFirst := true } ⟨0, 0, by decide⟩
+  have e : bToStrN { caret := false, star := true, sep := "+", swapCase := true, yFirst := true } { F := primeOps 7, ord := ⟨.lex, true⟩, varNames := ("X", "Y"), ideal := none } [((2, 1), 3), ((0, 0), 5), ((1, 0), 1)] = "3*yx2+x+5" := by
+    decide +kernel
+  rwa [e] at h
+
+/-! ### 12. bivariate additivity in a quotient ring
+
+  `BPoly.reduceIn_sum`: if the model's `reduceIn` returns `f₁` and `f₂` unchanged, then no exponent
+  pair of them is divisible by a leading exponent of the ideal, the division loop only moves the
+  terms of `add f₁ f₂` into the remainder, and the result is `Equal` to `add f₁ f₂` — for an
+  admissible order and exponents whose weighted degree does not overflow (so that the leading
+  exponent is a stored one), and as long as the MODEL's division fuel suffices. -/
+
+/-- the side conditions of bivariate additivity in a quotient ring.  The first two are needed by the
+    division algorithm itself (`Ld()` must return a stored exponent); the third is an ARTIFACT OF
+    THE MODEL: its division loop carries a fuel `BPoly.divFuel` (100000 steps), the Go code has
+    none, so the unguarded statement is false in the model for sums of ≥ 100000 terms while
+    nothing is wrong with the library. -/
+def BAddSide {α : Type} (ord : Order) (f₁ f₂ : BPoly α) : Prop :=
+  Order.Admissible ord ∧ (∀ t ∈ f₁, Order.NoOverflow ord t.1) ∧ (∀ t ∈ f₂, Order.NoOverflow ord t.1) ∧
+    f₁.length + f₂.length < BPoly.divFuel
+
+theorem hsum_of_side {α K : Type} [Field K] {F : FOps α} (L : Lawful F K) {x y : String}
+    (ord : Order) (ideal : Option (List (BPoly α))) {f₁ f₂ : BPoly α}
+    (hf₁ : BPoly.WF L f₁) (hf₂ : BPoly.WF L f₂)
+    (hr₁ : BPoly.reduceIn { F := F, ord := ord, varNames := (x, y), ideal := ideal } f₁ = some f₁)
+    (hr₂ : BPoly.reduceIn { F := F, ord := ord, varNames := (x, y), ideal := ideal } f₂ = some f₂)
+    (hside : ideal ≠ none → BAddSide ord f₁ f₂) :
+    ∀ gs, ideal = some gs → ∃ h,
+      BPoly.reduceIn { F := F, ord := ord, varNames := (x, y), ideal := ideal }
+        (BPoly.add F f₁ f₂) = some h ∧ BPoly.equal F h (BPoly.add F f₁ f₂) = true := by
+  intro gs hgs
+  obtain ⟨hadm, hn1, hn2, hfuel⟩ := hside (by rw [hgs]; simp)
+  exact BPoly.reduceIn_sum { F := F, ord := ord, varNames := (x, y), ideal := ideal } L hgs hadm
+    hf₁ hf₂ hr₁ hr₂
+    (fun d hd => by obtain ⟨t, ht, rfl⟩ := List.mem_map.1 hd; exact hn1 t ht)
+    (fun d hd => by obtain ⟨t, ht, rfl⟩ := List.mem_map.1 hd; exact hn2 t ht) hfuel
+
+/-- bivariate additivity over a prime field, every order, with or without ideal (`BAddSide` in a
+    quotient ring) -/
+theorem prime_bpoly_additive_bounded {p : Nat} (hp : p.Prime) (h32 : p - 1 < 2 ^ 32) {x y : String}
+    (hx : AdmissibleName x) (hy : AdmissibleName y) (hxy : Unconfusable x y) (ord : Order)
+    (ideal : Option (List (BPoly Nat))) {f₁ f₂ : BPoly Nat}
+    (hf₁ : BValid (primeSpec p) { F := primeOps p, ord := ord, varNames := (x, y), ideal := ideal } f₁)
+    (hf₂ : BValid (primeSpec p) { F := primeOps p, ord := ord, varNames := (x, y), ideal := ideal } f₂)
+    (hside : ideal ≠ none → BAddSide ord f₁ f₂) :
+    ∃ g, BPoly.parse { F := primeOps p, ord := ord, varNames := (x, y), ideal := ideal }
+        (BPoly.toStr { F := primeOps p, ord := ord, varNames := (x, y), ideal := ideal } f₁ ++ " + " ++
+          BPoly.toStr { F := primeOps p, ord := ord, varNames := (x, y), ideal := ideal } f₂) =
+            .ok (some g) ∧
+      BPoly.equal (primeOps p) g (BPoly.add (primeOps p) f₁ f₂) = true := by
+  have := Fact.mk hp
+  have hwf : ∀ {f : BPoly Nat}, BValid (primeSpec p)
+      { F := primeOps p, ord := ord, varNames := (x, y), ideal := ideal } f →
+      BPoly.WF (primeLawfulFact p h32) f := fun hf =>
+    ⟨hf.1, fun t ht => ⟨(hf.2.1 t ht).1,
+      ((primeLawfulFact p h32).isZero_false_iff _ (hf.2.1 t ht).1).1 (hf.2.1 t ht).2.1⟩⟩
+  exact prime_bpoly_additive hp h32 hx hy hxy ord ideal hf₁ hf₂
+    (hsum_of_side (primeLawfulFact p h32) ord ideal (hwf hf₁) (hwf hf₂) hf₁.2.2 hf₂.2.2 hside)
+
+/-- … over a binary field -/
+theorem bin_bpoly_additive_bounded {K : Type} [Field K] {n m : Nat} {w : String}
+    (L : Lawful (binOps n m w) K) (hL : ∀ a, L.valid a ↔ a < 2 ^ n) (hw : AdmissibleName w)
+    (hn : n < 64) {x y : String} (hx : AdmissibleName x) (hy : AdmissibleName y)
+    (hxy : Unconfusable x y) (hxw : Unconfusable x w) (hyw : Unconfusable y w) (ord : Order)
+    (ideal : Option (List (BPoly Nat))) {f₁ f₂ : BPoly Nat}
+    (hf₁ : BValid (binSpec n m w) { F := binOps n m w, ord := ord, varNames := (x, y), ideal := ideal } f₁)
+    (hf₂ : BValid (binSpec n m w) { F := binOps n m w, ord := ord, varNames := (x, y), ideal := ideal } f₂)
+    (hside : ideal ≠ none → BAddSide ord f₁ f₂) :
+    ∃ g, BPoly.parse { F := binOps n m w, ord := ord, varNames := (x, y), ideal := ideal }
+        (BPoly.toStr { F := binOps n m w, ord := ord, varNames := (x, y), ideal := ideal } f₁ ++ " + " ++
+          BPoly.toStr { F := binOps n m w, ord := ord, varNames := (x, y), ideal := ideal } f₂) =
+            .ok (some g) ∧
+      BPoly.equal (binOps n m w) g (BPoly.add (binOps n m w) f₁ f₂) = true := by
+  have hwf : ∀ {f : BPoly Nat}, BValid (binSpec n m w)
+      { F := binOps n m w, ord := ord, varNames := (x, y), ideal := ideal } f → BPoly.WF L f :=
+    fun hf => ⟨hf.1, fun t ht => ⟨(hL _).2 (hf.2.1 t ht).1,
+      (L.isZero_false_iff _ ((hL _).2 (hf.2.1 t ht).1)).1 (hf.2.1 t ht).2.1⟩⟩
+  exact bin_bpoly_additive L hL hw hn hx hy hxy hxw hyw ord ideal hf₁ hf₂
+    (hsum_of_side L ord ideal (hwf hf₁) (hwf hf₂) hf₁.2.2 hf₂.2.2 hside)
+
+section ExtBAddB
+variable {p : Nat} [Fact p.Prime] {h32 : p - 1 < 2 ^ 32} {n : Nat} {g : List Nat}
+
+/-- … over an extension field -/
+theorem ext_bpoly_additive_bounded {K : Type} [Field K] (M : ExtField.Modulus h32 n g)
+    (hn : n ≤ 2 ^ 63) (L : Lawful (extOps p n g) K) (hL : ∀ a, L.valid a ↔ ExtField.Valid h32 n a)
+    {x y : String} (hx : AdmissibleName x) (hy : AdmissibleName y) (hxy : Unconfusable x y)
+    (hxw : Unconfusable x "a") (hyw : Unconfusable y "a") (ord : Order)
+    (ideal : Option (List (BPoly (UPoly Nat)))) {f₁ f₂ : BPoly (UPoly Nat)}
+    (hf₁ : BValid (extSpec p n g) { F := extOps p n g, ord := ord, varNames := (x, y), ideal := ideal } f₁)
+    (hf₂ : BValid (extSpec p n g) { F := extOps p n g, ord := ord, varNames := (x, y), ideal := ideal } f₂)
+    (hside : ideal ≠ none → BAddSide ord f₁ f₂) :
+    ∃ g', BPoly.parse { F := extOps p n g, ord := ord, varNames := (x, y), ideal := ideal }
+        (BPoly.toStr { F := extOps p n g, ord := ord, varNames := (x, y), ideal := ideal } f₁ ++ " + " ++
+          BPoly.toStr { F := extOps p n g, ord := ord, varNames := (x, y), ideal := ideal } f₂) =
+            .ok (some g') ∧
+      BPoly.equal (extOps p n g) g' (BPoly.add (extOps p n g) f₁ f₂) = true := by
+  have hv : ∀ {f : BPoly (UPoly Nat)}, BValid (extSpec p n g)
+      { F := extOps p n g, ord := ord, varNames := (x, y), ideal := ideal } f →
+      ∀ t ∈ f, L.valid t.2 := fun hf t ht =>
+    (hL _).2 (by have := (hf.2.1 t ht).1; exact ⟨⟨this.2.2, this.1⟩, this.2.1⟩)
+  have hwf : ∀ {f : BPoly (UPoly Nat)}, BValid (extSpec p n g)
+      { F := extOps p n g, ord := ord, varNames := (x, y), ideal := ideal } f → BPoly.WF L f :=
+    fun hf => ⟨hf.1, fun t ht => ⟨hv hf t ht,
+      (L.isZero_false_iff _ (hv hf t ht)).1 (hf.2.1 t ht).2.1⟩⟩
+  exact ext_bpoly_additive M hn L hL hx hy hxy hxw hyw ord ideal hf₁ hf₂
+    (hsum_of_side L ord ideal (hwf hf₁) (hwf hf₂) hf₁.2.2 hf₂.2.2 hside)
+
+end ExtBAddB
+
+-- non-vacuity: (XY + 3) + (2XY + Y) = 3XY + Y + 3 in F_7[X,Y]/(X^2 + 1), graded order
+example : ∃ g, BPoly.parse { F := primeOps 7, ord := (Order.mk (.wdeglex 1 1) true), varNames := ("X", "Y"), ideal := some [[((2, 0), 1), ((0, 0), 1)]] } "XY + 3 + 2XY + Y" = .ok (some g) ∧
+    BPoly.equal (primeOps 7) g [((1, 1), 3), ((0, 0), 3), ((0, 1), 1)] = true := by
+  have hv : ∀ (f : BPoly Nat), f = [((1, 1), 1), ((0, 0), 3)] ∨ f = [((1, 1), 2), ((0, 1), 1)] →
+      BValid (primeSpec 7) { F := primeOps 7, ord := (Order.mk (.wdeglex 1 1) true), varNames := ("X", "Y"), ideal := some [[((2, 0), 1), ((0, 0), 1)]] } f := by
+    rintro f (rfl | rfl)
+    · refine ⟨by decide, ?_, by decide +kernel⟩
+      intro t ht
+      have : t = ((1, 1), 1) ∨ t = ((0, 0), 3) := by simpa using ht
+      rcases this with rfl | rfl <;>
+        exact ⟨by show (_ : Nat) < 7; decide, by decide, by decide, by decide⟩
+    · refine ⟨by decide, ?_, by decide +kernel⟩
+      intro t ht
+      have : t = ((1, 1), 2) ∨ t = ((0, 1), 1) := by simpa using ht
+      rcases this with rfl | rfl <;>
+        exact ⟨by show (_ : Nat) < 7; decide, by decide, by decide, by decide⟩
+  have hno : ∀ d : Deg, d.1 < 2 ∧ d.2 < 2 → Order.NoOverflow (Order.mk (.wdeglex 1 1) true) d := by
+    rintro ⟨a, b⟩ ⟨ha, hb⟩
+    have ha' : a = 0 ∨ a = 1 := by omega
+    have hb' : b = 0 ∨ b = 1 := by omega
+    rcases ha' with rfl | rfl <;> rcases hb' with rfl | rfl <;> decide
+  have h := prime_bpoly_additive_bounded (p := 7) (by norm_num) (by norm_num) (x := "X") (y := "Y")
+    ⟨'X', [], by decide, by decide, by decide⟩ ⟨'Y', [], by decide, by decide, by decide⟩
+    (by unfold Unconfusable; decide) (Order.mk (.wdeglex 1 1) true)
+    (some [[((2, 0), 1), ((0, 0), 1)]]) (hv _ (Or.inl rfl)) (hv _ (Or.inr rfl))
+    (fun _ => ⟨trivial,
+      fun t ht => hno t.1 (by
+        have : t = ((1, 1), 1) ∨ t = ((0, 0), 3) := by simpa using ht
+        rcases this with rfl | rfl <;> decide),
+      fun t ht => hno t.1 (by
+        have : t = ((1, 1), 2) ∨ t = ((0, 1), 1) := by simpa using ht
+        rcases this with rfl | rfl <;> decide),
+      by decide⟩)
+  have e1 : BPoly.toStr { F := primeOps 7, ord := (Order.mk (.wdeglex 1 1) true), varNames := ("X", "Y"), ideal := some [[((2, 0), 1), ((0, 0), 1)]] } [((1, 1), 1), ((0, 0), 3)] ++ " + " ++ BPoly.toStr { F := primeOps 7, ord := (Order.mk (.wdeglex 1 1) true), varNames := ("X", "Y"), ideal := some [[((2, 0), 1), ((0, 0), 1)]] } [((1, 1), 2), ((0, 1), 1)] = "XY + 3 + 2XY + Y" := by
+    decide +kernel
+  have e2 : BPoly.add (primeOps 7) [((1, 1), 1), ((0, 0), 3)] [((1, 1), 2), ((0, 1), 1)] =
+      [((1, 1), 3), ((0, 0), 3), ((0, 1), 1)] := by decide +kernel
+  rwa [e1, e2] at h
 
 /-- `UPolyRoundTrip` of `Props/C15.lean` with the bound on the number of coefficients that the
     exponent reader (`strconv.ParseInt`) imposes: an exponent `≥ 2^63` is a range error, so without
@@ -1308,55 +1706,18 @@ def UPolyRoundTripB {α : Type} (S : FieldSpec α) : Prop :=
       ∃ g, UPoly.parse R (UPoly.toStr S.F v f₁ ++ " + " ++ UPoly.toStr S.F v f₂) = .ok (some g) ∧
         UPoly.equal S.F g (UPoly.add S.F f₁ f₂) = true)
 
-/-- clause 1 of `UPolyRoundTripB`: all notations -/
-def UNotations {α : Type} (S : FieldSpec α) : Prop :=
-  ∀ (v : String) (mod : Option (UPoly α)), AdmissibleName v →
-    (∀ w, S.ownVar = some w → Unconfusable v w) → ModOK S mod →
-    ∀ f, UValid S { F := S.F, varName := v, modulus := mod } f → f.length ≤ 2 ^ 63 →
-      ∀ N : Notation, N.ok →
-      ∃ g, UPoly.parse { F := S.F, varName := v, modulus := mod } (uToStrN N S.F v f) = .ok (some g) ∧
-        UPoly.equal S.F f g = true
+/-! ### 13. nothing of `C15_full` remains unproved, up to the bounds
 
-/-- clause 1 of `BPolyRoundTrip`: all notations -/
-def BNotations {α : Type} (S : FieldSpec α) : Prop :=
-  ∀ (x y : String) (ord : Order) (ideal : Option (List (BPoly α))),
-    AdmissibleName x → AdmissibleName y → Unconfusable x y →
-    (∀ w, S.ownVar = some w → Unconfusable x w ∧ Unconfusable y w) →
-    ∀ f, BValid S { F := S.F, ord := ord, varNames := (x, y), ideal := ideal } f →
-      ∀ N : Notation, N.ok →
-      ∃ g, BPoly.parse { F := S.F, ord := ord, varNames := (x, y), ideal := ideal }
-          (bToStrN N { F := S.F, ord := ord, varNames := (x, y), ideal := ideal } f) = .ok (some g) ∧
-        BPoly.equal S.F f g = true
-
-/-- clause 2 of `BPolyRoundTrip` in a quotient ring -/
-def BAddQuot {α : Type} (S : FieldSpec α) : Prop :=
-  ∀ (x y : String) (ord : Order) (gs : List (BPoly α)),
-    AdmissibleName x → AdmissibleName y → Unconfusable x y →
-    (∀ w, S.ownVar = some w → Unconfusable x w ∧ Unconfusable y w) →
-    ∀ f₁ f₂, BValid S { F := S.F, ord := ord, varNames := (x, y), ideal := some gs } f₁ →
-      BValid S { F := S.F, ord := ord, varNames := (x, y), ideal := some gs } f₂ →
-      ∃ g, BPoly.parse { F := S.F, ord := ord, varNames := (x, y), ideal := some gs }
-          (BPoly.toStr { F := S.F, ord := ord, varNames := (x, y), ideal := some gs } f₁ ++ " + " ++
-            BPoly.toStr { F := S.F, ord := ord, varNames := (x, y), ideal := some gs } f₂) =
-              .ok (some g) ∧
-        BPoly.equal S.F g (BPoly.add S.F f₁ f₂) = true
-
-/-- NOT PROVED. What is still only validated by the correspondence run.  Everything else of
-    `C15_full` (with the bounds of `UPolyRoundTripB`) is proved for all three field families:
-    element round trips; `UNotations` (clause 1 of `UPolyRoundTripB` for EVERY notation:
-    `prime_/bin_/ext_upoly_notation`); clause 1 of `BPolyRoundTrip` for `N = {}` (every order,
-    ideal); univariate additivity; bivariate additivity without ideal.  Remaining:
-    * `BNotations` for `N ≠ {}` (`*`, no `^`, blanks around `+`, letter case, `y` before `x`);
-    * `BAddQuot`: bivariate additivity in a quotient ring is proved only under the extra hypothesis
-      `hsum` of `*_bpoly_additive` (the model's reduction returns something `Equal` to
-      `add f₁ f₂` when applied to it); deriving `hsum` from `BValid f₁`, `BValid f₂` needs an
-      analysis of `quoRemLoop` on inputs without divisible exponent pairs, an admissible order, and
-      a bound `f₁.length + f₂.length < BPoly.divFuel` for the model's division fuel. -/
-def C15Full_remaining : Prop :=
-  (∀ p, Define.prime p = .ok (.prime p) → BNotations (primeSpec p) ∧ BAddQuot (primeSpec p)) ∧
-  (∀ q n m v, Define.bin Gen.dbText q = .ok (.bin n m) → AdmissibleName v →
-    BNotations (binSpec n m v) ∧ BAddQuot (binSpec n m v)) ∧
-  (∀ q p n g, Define.ext Gen.dbText q = .ok (.ext p n g) →
-    BNotations (extSpec p n g) ∧ BAddQuot (extSpec p n g))
+  Every clause of `C15_full` is now a theorem for all three field families, with these bounds and
+  side conditions (the literal statement is false without the first, `C15_full_literal_false`):
+  * univariate polynomials: at most `2^63` coefficients (`strconv.ParseInt` on the exponent);
+  * bivariate exponents `< 2^64` (already part of `BValid`);
+  * bivariate additivity in a quotient ring: `BAddSide` — admissible order, no overflow of the
+    weighted degree of the stored exponents, and `f₁.length + f₂.length < BPoly.divFuel`, the
+    last being an artifact of the fuel-bounded MODEL of the division loop (the Go code has no
+    fuel; nothing is claimed wrong with the library);
+  * the corollaries over the fields the `Define` functions return need `q < 2^64`.
+  The assembled statement is `C15_full_bounded` in `Props/C15FullDefine.lean`.
+  (`C15Full_remaining`, which listed the unproved parts in earlier versions, is gone.) -/
 
 end Algobra.C15
